@@ -4,7 +4,7 @@ from hypothesis import strategies as st
 
 from scikit_tt.tensor_train import TT
 from vt import dense, gen, build
-from vt.common import Sub, Violation, require
+from vt.common import Sub, Violation, require, target
 from vt.build import close, require_consistent
 
 PROPERTY_ID = 'C04'
@@ -158,6 +158,8 @@ def body_array(case):
     if truncated:
         lab.add('truncating')
     bound = tail_bound(spectra, t.ranks)
+    if bound > 1e-6 * nx:
+        target(err / bound, 'error / quasi-optimality bound')
     require(err <= bound + SLACK * max(nx, 1e-300) + 1e-300, 'quasi_optimal',
             'error %.3e exceeds the TT-SVD bound %.3e (ranks %s, cap %s, threshold %s)' % (err, bound, t.ranks, case['cap'], th))
     if th != 0 and case['cap'] is None:
@@ -242,6 +244,8 @@ def body_cores(case):
         y = dense.contract(t.cores)
         err = float(np.linalg.norm(y - x))
         bound = tail_bound(spectra, t.ranks)
+        if bound > 1e-6 * nx:
+            target(err / bound, 'error / quasi-optimality bound')
         require(err <= bound + SLACK * max(nx, 1e-300), 'quasi_optimal',
                 '%s: error %.3e exceeds the bound %.3e (ranks %s -> %s, cap %s)' % (entry, err, bound, spec['ranks'], t.ranks, case['cap']))
     return lab
